@@ -35,6 +35,8 @@ def main():
         print("%-8s %-8s %s" % (status, sid, (fired[0][:150] if fired else r.stdout.strip()[:150])))
         meta["caught_by_check"] = prop if status in ("caught", "FALSE-ALARM") else None
         meta["reports"] = fired[:4]
+        rl = [l for l in r.stdout.splitlines() if l.startswith("  rules: ")]
+        meta["caught_by_rules"] = rl[0][9:].split() if rl else []
         json.dump(meta, open(meta_p, "w"), indent=1)
     return 1 if bad else 0
 
